@@ -6,7 +6,7 @@ CONSTANTS
   Breaks <- BreaksQ
   Degs <- DegsQ
   MaxNpts = 5
-  Acts = {"CvIntegrate"}
+  Acts = {"CvIntegrate", "IntegrateFn"}
   PtKinds = {"gen"}
   WtKinds = {"none"}
   ExtraNodes <- Extra0
